@@ -190,6 +190,39 @@ def main(tier, seed, replay=None):
                               {"case": c, "implementation": r})
                 continue
         nok += 1
+    # fits on problems with as many or fewer samples than basis functions, started at coinciding parameters (row-rank deficient,
+    # with and without a truncating threshold): the state before and after the fit shows residuals that are W(Y - Phi C) for the
+    # coefficients it shows (Model/Numeric.check_own_resid: any shape, any rank), and fit() does not take a non-zero residual for zero
+    from . import num as _num
+    wcases = []
+    for j in range(8 if tier == "quick" else 80):
+        fam = ["exp2c", "exp3", "cosmix", "exp2c"][j % 4]
+        M_ = len(FAMILIES[fam][0])
+        c = gen_problem(rng, quant=(8 if j % 2 else None), family=fam, N=[M_, M_ - 1, M_, 2][j % 4], eps=[None, 1e-2, 1e-6, 0.5][j % 4],
+                        weights=["none", "pos", "mixed"][j % 3])
+        c["model"]["init"] = [hx(1.5, c["scalar"])] * c["meta"]["P"]
+        c["ops"] = [["observe"], ["tables"], ["fit", {"patience": 5}], ["observe"], ["tables"]]
+        c["id"] = 70000 + j
+        wcases.append(c)
+    wres = run_harness(binp, "scenario", wcases, os.path.join(COQ, "run", "C04"), timeout_ms=20000, tag="wide")
+    wterms, widx = [], []
+    for c, r in zip(wcases, wres):
+        if r.get("panic") is not None or r.get("timeout") or r["head"].get("build") != "ok":
+            run.violation("fit on a problem with N <= M panicked, hung or could not be built", {"case": c, "result": r})
+            continue
+        st = r["steps"]
+        for k in (0, 3):
+            t = _num.own_resid_term(c, st[k]["v"], st[k + 1]["v"])
+            if t is not None:
+                wterms.append(t)
+                widx.append((c, r, k))
+    wcodes = coq_eval("C04", _num.HEADER, wterms, per_file_timeout=1800)
+    for (c, r, k), code, t in zip(widx, wcodes, wterms):
+        if code != 0:
+            run.violation("fit on a problem with N <= M, state %s the fit: residuals are not W(Y - Phi C) for the coefficients shown"
+                          % ("before" if k == 0 else "after"),
+                          {"case": c, "observe": r["steps"][k]["v"], "fit": r["steps"][2]["v"], "coq_term": t})
+    run.coverage["wide_fit_states_checked"] = len(wterms)
     run.coverage.update({
         "evaluations": len(cases), "distinct_nontrivial": sum(1 for c, r, i in idx if i["trials"] > 0),
         "rule": "random fitting problems over 8 model families (hand-written and builder-made, 1-3 right-hand sides, weights incl. "
